@@ -43,6 +43,9 @@ CLAIMED = {
  "C15": ("7/C15", "CFG edge-cut guard entailment on the lease write and delete (three-literal disjunction), version provenance, success-only-after-write rule, worker guard and flag rules",
          "Structural necessary conditions only: lease written only when unclaimed / own / expired, with the version of the inspected lease, success only after the write succeeded; lease deleted only when own with the version read; the worker replicates/recovers only under its leased flag, which follows the lease call's outcome, and requests the lease for longer than the renewal period. Clock skew and the store's atomicity (C13) are not decided.",
          "go/types+go/ssa; C13 compare-and-set semantics"),
+ "C19": ("7/C19", "CFG edge-cut guard entailment with linear atoms on the merge function's field stores, pair-travels-together path rule, key/argument provenance and lock rules on the update method, ownership of the view map, feeder call-site table; thorough tier: exhaustive evaluation of the extracted guarded assignment on the finite quotient of orderings",
+         "Structural necessary conditions only: leader/term overwritten together and only from an update that names a leader and (current has none or strictly larger term); membership only with larger config-change index; entry keyed by the update's shard and merged with the entry under that key, under the write lock; only update() writes the view and all feeders call it; header copies term/leader of the requested shard. Thorough tier adds order independence, idempotence and term monotonicity on the finite quotient (an enumeration of an extracted abstraction, reported separately). Gossip convergence is not decided.",
+         "go/types+go/ssa; Raft election safety (equal terms name equal leaders) for the quotient check"),
 }
 PENDING_REASON = "rules designed (DESIGN.md section 7), check not built yet"
 checks=[]; na=[]
